@@ -216,7 +216,7 @@ theorem pfWithdraw_out (b : Broker α) (pid : String) (t : Int) (a : α) :
   | none => rfl
   | some e => exact withdraw_out e.pf t a
 
-/-! ### positions: outcomes and the partial update -/
+/-! ### positions: outcomes; a refused `transact` moves at most the clock -/
 
 theorem updatePrice_out (p : Position α) (pr : α) (t : Int) :
     (p.updatePrice pr t).2 = if t < p.clock ∨ pr ≤ 0 then some .value else none := by
@@ -232,42 +232,55 @@ theorem transact_out (p : Position α) (t : Txn α) :
   by_cases h : t.qty = 0
   · simp [h]
   · simp only [h, if_false]
-    have hc : (if 0 < t.qty then p.transactBuy (ofInt t.qty) t.price t.commission
-        else p.transactSell (ofInt (-t.qty)) t.price t.commission).clock = p.clock := by
-      split <;> rfl
-    generalize (if 0 < t.qty then p.transactBuy (ofInt t.qty) t.price t.commission
-        else p.transactSell (ofInt (-t.qty)) t.price t.commission) = p1 at hc
-    have := updatePrice_out p1 t.price t.time
-    rw [hc] at this
-    rcases hs : p1.updatePrice t.price t.time with ⟨p2, _ | e⟩ <;> rw [hs] at this <;> exact this
+    have := updatePrice_out p t.price t.time
+    rcases hs : p.updatePrice t.price t.time with ⟨p2, _ | e⟩ <;> rw [hs] at this <;> exact this
 
-/-- a refused `Position.transact` has already moved the quantities -/
+/-- a refused `updatePrice` has at most moved the clock forward -/
+theorem updatePrice_err_form (p : Position α) (pr : α) (t : Int) {e : Err}
+    (h : (p.updatePrice pr t).2 = some e) :
+    ∃ c, p.clock ≤ c ∧ (p.updatePrice pr t).1 = { p with clock := c } := by
+  unfold Position.updatePrice at h ⊢
+  split
+  · exact ⟨p.clock, le_refl _, rfl⟩
+  · rename_i h1
+    rw [if_neg h1] at h
+    split
+    · exact ⟨t, not_lt.mp h1, rfl⟩
+    · rename_i h2; rw [if_neg h2] at h; cases h
+
+/-- a refused `Position.transact` is a refused `updatePrice`: the price / time validation comes first,
+the running quantities, averages and commissions are not touched -/
+theorem transact_err_eq (p : Position α) (t : Txn α) {e : Err} (h : (p.transact t).2 = some e) :
+    (p.updatePrice t.price t.time).2 = some e ∧ (p.transact t).1 = (p.updatePrice t.price t.time).1 := by
+  unfold Position.transact at h ⊢
+  by_cases hq : t.qty = 0
+  · rw [if_pos hq] at h; cases h
+  · rw [if_neg hq] at h ⊢
+    rcases hs : p.updatePrice t.price t.time with ⟨p2, _ | e'⟩ <;> rw [hs] at h
+    · cases h
+    · exact ⟨h, rfl⟩
+
+/-- a refused `Position.transact` has changed at most the position's clock (moved forward) -/
 theorem transact_err (p : Position α) (t : Txn α) {e : Err} (h : (p.transact t).2 = some e) :
     t.qty ≠ 0 ∧ (t.time < p.clock ∨ t.price ≤ 0) ∧ e = .value ∧
-      (p.transact t).1.net = p.net + (t.qty : α) := by
+      ∃ c, p.clock ≤ c ∧ (p.transact t).1 = { p with clock := c } := by
   have hout := transact_out p t
   rw [h] at hout
+  obtain ⟨h1, h2⟩ := transact_err_eq p t h
+  rw [h2]
   by_cases hq : t.qty = 0
   · simp [hq] at hout
   · simp only [hq, if_false] at hout
     by_cases hc : t.time < p.clock ∨ t.price ≤ 0
     · simp only [hc, if_true, Option.some.injEq] at hout
-      refine ⟨hq, hc, hout, ?_⟩
-      unfold Position.transact
-      simp only [hq, if_false]
-      have hn : (if 0 < t.qty then p.transactBuy (ofInt t.qty) t.price t.commission
-          else p.transactSell (ofInt (-t.qty)) t.price t.commission).net = p.net + (t.qty : α) := by
-        split
-        · simp only [Position.net, Position.transactBuy, ofInt_eq]; ring
-        · simp only [Position.net, Position.transactSell, ofInt_eq]; push_cast; ring
-      generalize (if 0 < t.qty then p.transactBuy (ofInt t.qty) t.price t.commission
-          else p.transactSell (ofInt (-t.qty)) t.price t.commission) = p1 at hn
-      have h2 := updatePrice_net p1 t.price t.time
-      rcases hs : p1.updatePrice t.price t.time with ⟨p2, _ | e⟩ <;> rw [hs] at h2 <;>
-        simp only at h2 ⊢
-      · simp only [Position.net] at h2 hn ⊢; rw [h2, hn]
-      · rw [h2, hn]
+      exact ⟨hq, hc, hout, updatePrice_err_form p t.price t.time h1⟩
     · simp [hc] at hout
+
+/-- a refused `Position.transact` leaves the net quantity as it was -/
+theorem transact_err_net (p : Position α) (t : Txn α) {e : Err} (h : (p.transact t).2 = some e) :
+    (p.transact t).1.net = p.net := by
+  obtain ⟨-, -, -, c, -, hc⟩ := transact_err p t h
+  rw [hc]; rfl
 
 theorem transactPosition_out (ps : Positions α) (t : Txn α) :
     (ps.transactPosition t).2 =
@@ -301,6 +314,14 @@ theorem transactPosition_err (ps : Positions α) (t : Txn α) {e : Err}
     rcases hs : p.transact t with ⟨p', _ | e'⟩
     · rw [hs] at hout; cases hout
     · rfl
+
+/-- a refused `transactPosition` is unobservable -/
+theorem transactPosition_err_obs (ps : Positions α) (t : Txn α) (hn : (ps.map (·.asset)).Nodup) {e : Err}
+    (h : (ps.transactPosition t).2 = some e) :
+    (ps.transactPosition t).1.map (fun q => (q.asset, q.net)) = ps.map (fun q => (q.asset, q.net)) := by
+  obtain ⟨p, hf, herr, hset⟩ := transactPosition_err ps t h
+  rw [hset]
+  exact set_obs hn hf (transact_asset p t) (transact_err_net p t herr)
 
 theorem transactAsset_out (p : Portfolio α) (t : Txn α) :
     (p.transactAsset t).2 =
@@ -448,7 +469,9 @@ theorem applyMark_obs (b : Broker α) (pid asset : String) (price : α) (t : Int
   · rename_i en hf
     exact obs_setPf hu hf _ (mark_sameObs en.pf asset price t (hp en (find?_spec hf).1)) _ rfl rfl
 
-/-- `applyTxn` refused for an unknown portfolio or a time earlier than the portfolio clock -/
+/-- `applyTxn` refused for an unknown portfolio or a time earlier than the portfolio clock
+(special case of `applyTxn_refused_obs`, which needs no case distinction; kept because it does not
+need `PosUnique`) -/
 theorem applyTxn_err_obs (b : Broker α) (pid : String) (t : Txn α) (hu : UniqueIds b)
     (hdoc : ∀ en, b.find? pid = some en → t.time < en.pf.clock) :
     obs (b.applyTxn pid t).1 = obs b := by
@@ -461,96 +484,52 @@ theorem applyTxn_err_obs (b : Broker α) (pid : String) (t : Txn α) (hu : Uniqu
     · exact absurd (hdoc en hf) hn
     · exact absurd (hdoc en hf) hn
 
-/-! ### the partial update of `applyTxn` -/
+/-! ### a refused `applyTxn` is unobservable -/
 
-theorem eq_of_find {b : Broker α} {pid : String} {en x : PfEntry α} (hu : UniqueIds b)
-    (hf : b.find? pid = some en) (hx : x ∈ b.entries) (hid : x.pf.id = pid) : x = en :=
-  List.inj_on_of_nodup_map hu hx (find?_spec hf).1 (hid.trans (find?_spec hf).2.symm)
+/-- a refused `transactAsset` (whatever raised the error: the portfolio's clock check, or
+`Position.transact`'s validation of the trade's price and time) is unobservable -/
+theorem transactAsset_err_sameObs (p : Portfolio α) (t : Txn α) (hn : (p.positions.map (·.asset)).Nodup)
+    {e : Err} (h : (p.transactAsset t).2 = some e) : SameObs p (p.transactAsset t).1 := by
+  obtain ⟨p', ⟨h', -, rfl⟩ | ⟨er, ps, h', -, hps, rfl⟩ | ⟨ev, h', -⟩⟩ := transactAsset_cases p t <;>
+    rw [h'] at h ⊢
+  · exact SameObs.rfl' _
+  · have := transactPosition_err_obs p.positions t hn (e := er) (by rw [hps])
+    rw [hps] at this
+    exact ⟨rfl, rfl, rfl, this⟩
+  · cases h
 
-theorem obs_setPf_eq (b : Broker α) (p : Portfolio α) (b' : Broker α)
-    (he : b'.entries = (b.setPf p).entries) (hm : b'.master = b.master) :
-    obs b' = (b.master, b.entries.map (fun x => if x.pf.id = p.id then obsPf { x with pf := p } else obsPf x)) := by
-  unfold obs
-  rw [hm, he]
-  unfold Broker.setPf
-  simp only [List.map_map]
-  congr 1
-  apply List.map_congr_left
-  intro x _
-  simp only [Function.comp]
-  by_cases h : x.pf.id = p.id <;> simp [h]
+/-- A refused `applyTxn` — unknown portfolio, time earlier than the portfolio's clock, or a refusal from
+inside `Position.transact` (time earlier than the position's clock, non-positive price) — leaves the
+observable state unchanged: the validation in `Position.transact` comes before the quantities move. -/
+theorem applyTxn_refused_obs (b : Broker α) (pid : String) (t : Txn α) (hu : UniqueIds b)
+    (hp : PosUnique b) {e : Err} (h : (b.applyTxn pid t).2 = some e) :
+    obs (b.applyTxn pid t).1 = obs b := by
+  have hout := applyTxn_out b pid t
+  rw [h] at hout
+  unfold Broker.applyTxn
+  split
+  · rfl
+  · rename_i en hf
+    rw [hf] at hout
+    simp only at hout
+    have hs := transactAsset_err_sameObs en.pf t (hp en (find?_spec hf).1) hout.symm
+    rcases hta : en.pf.transactAsset t with ⟨pf, _ | err⟩ <;> rw [hta] at hs hout
+    · cases hout
+    · exact obs_setPf hu hf pf hs _ rfl rfl
 
-/-- what a portfolio looks like after `t.qty` was added to the net quantity of asset `t.asset` only -/
-def bumpObs (t : Txn α) (x : PfEntry α) : String × α × List (String × α) × List Order × List (Event α) :=
-  (x.pf.id, x.pf.cash,
-    x.pf.positions.map (fun q => (q.asset, if q.asset = t.asset then q.net + (t.qty : α) else q.net)),
-    x.queue, x.pf.history)
-
-/-- The refusal raised from inside `Position.transact` (time earlier than the *position's* clock, or
-a non-positive price) is a partial update: the held quantity has already moved by `t.qty`, while
-cash, history, queue and every other position are untouched. -/
-theorem applyTxn_position_err (b : Broker α) (pid : String) (t : Txn α) (hu : UniqueIds b)
-    (hp : PosUnique b) {en : PfEntry α} (hf : b.find? pid = some en) (ht : ¬ t.time < en.pf.clock)
+/-- the refusal raised from inside `Position.transact`: which one it is -/
+theorem applyTxn_position_err (b : Broker α) (pid : String) (t : Txn α)
+    {en : PfEntry α} (hf : b.find? pid = some en) (ht : ¬ t.time < en.pf.clock)
     {e : Err} (h : (b.applyTxn pid t).2 = some e) :
     ∃ pos, Positions.find? en.pf.positions t.asset = some pos ∧ t.qty ≠ 0 ∧
-      (t.time < pos.clock ∨ t.price ≤ 0) ∧ e = .value ∧
-      obs (b.applyTxn pid t).1 =
-        (b.master, b.entries.map (fun x => if x.pf.id = pid then bumpObs t x else obsPf x)) ∧
-      obs (b.applyTxn pid t).1 ≠ obs b := by
-  have hid := (find?_spec hf).2
-  have hmem := (find?_spec hf).1
-  have hnd := hp en hmem
+      (t.time < pos.clock ∨ t.price ≤ 0) ∧ e = .value := by
   have h1 := applyTxn_out b pid t
   rw [hf, h] at h1
   simp only at h1
   rw [transactAsset_out, if_neg ht] at h1
-  obtain ⟨pos, hpos, herr, hset⟩ := transactPosition_err en.pf.positions t h1.symm
-  obtain ⟨hq, hwhy, hval, hnet⟩ := transact_err pos t herr
-  have hasset : (pos.transact t).1.asset = t.asset := (transact_asset pos t).trans (posFind_spec hpos).2
-  have hobs : obs (b.applyTxn pid t).1 =
-      (b.master, b.entries.map (fun x => if x.pf.id = pid then bumpObs t x else obsPf x)) := by
-    unfold Broker.applyTxn
-    rw [hf]
-    simp only
-    obtain ⟨p', ⟨-, h2, -⟩ | ⟨er, ps, h2, -, hps, rfl⟩ | ⟨ev, -, -, h2, -⟩⟩ := transactAsset_cases en.pf t
-    · exact absurd h2 ht
-    · rw [h2]
-      simp only
-      rw [obs_setPf_eq b _ _ rfl rfl]
-      congr 1
-      apply List.map_congr_left
-      intro x hx
-      simp only [hid]
-      by_cases hxid : x.pf.id = pid
-      · have := eq_of_find hu hf hx hxid
-        subst this
-        simp only [hxid, if_true, obsPf, bumpObs]
-        have hps' : ps = Positions.set x.pf.positions (pos.transact t).1 := by
-          have := congrArg Prod.fst hps
-          simpa [hset] using this.symm
-        rw [hps', set_map]
-        congr 3
-        apply List.map_congr_left
-        intro q hqm
-        by_cases hqa : q.asset = t.asset
-        · have : q = pos :=
-            List.inj_on_of_nodup_map hnd hqm (posFind_spec hpos).1 (hqa.trans (posFind_spec hpos).2.symm)
-          subst this
-          simp [hasset, hqa, hnet]
-        · simp [hasset, hqa]
-      · simp [hxid]
-    · rw [← h1] at h2; cases h2
-  refine ⟨pos, hpos, hq, hwhy, hval, hobs, ?_⟩
-  rw [hobs]
-  intro heq
-  have h2 := congrArg Prod.snd heq
-  simp only [obs] at h2
-  have h3 := (List.map_inj_left.mp h2) en hmem
-  simp only [hid, if_true, bumpObs, obsPf, Prod.mk.injEq, true_and] at h3
-  have h4 := (List.map_inj_left.mp h3.1) pos (posFind_spec hpos).1
-  simp only [(posFind_spec hpos).2, if_true, Prod.mk.injEq, true_and] at h4
-  have : (t.qty : α) = 0 := by linarith
-  exact hq (by exact_mod_cast this)
+  obtain ⟨pos, hpos, herr, -⟩ := transactPosition_err en.pf.positions t h1.symm
+  obtain ⟨hq, hwhy, hval, -⟩ := transact_err pos t herr
+  exact ⟨pos, hpos, hq, hwhy, hval⟩
 
 /-! ### cash balances (for `C01_only_these`) -/
 
